@@ -1044,6 +1044,11 @@ def endo(o, key, kinds=None, linear=False):
             return odl.ZeroOperator(sp)
         if k == 'vecsum':
             return odl.IdentityOperator(sp) - vec(sp, seed)
+        if k == 'prox':
+            fac = [PO.proximal_l1, PO.proximal_l2, PO.proximal_l2_squared,
+                   PO.proximal_convex_conj_l1][seed % 4]
+            return fac(sp, lam=abs(s), g=vec(sp, seed) if seed % 3 else
+                       None)(0.5 + (seed % 5) / 4.0)
         raise HarnessError('unknown endo kind ' + k)
     return mk
 
@@ -1497,14 +1502,14 @@ EXPR_KINDS = ['sum', 'comp', 'lscal', 'rscal', 'lvec', 'rvec', 'vecsum',
               'pwprod', 'neg', 'pow', 'div']
 
 
-def expr(o, key, depth, linear=False, force=None):
+def expr(o, key, depth, linear=False, force=None, leaves=None):
     """Pick an endomorphism expression tree; returns f(space) -> operator."""
     if depth == 0:
-        return endo(o, key, linear=linear)
+        return endo(o, key, kinds=leaves, linear=linear)
     kinds = ['sum', 'comp', 'lscal', 'rscal', 'neg'] if linear else EXPR_KINDS
     k = force if force is not None else o.pick(key + '.x', kinds)
-    a = expr(o, key + 'a', depth - 1, linear)
-    b = expr(o, key + 'b', depth - 1, linear) \
+    a = expr(o, key + 'a', depth - 1, linear, leaves=leaves)
+    b = expr(o, key + 'b', depth - 1, linear, leaves=leaves) \
         if k in ('sum', 'comp', 'pwprod') else None
     s = o.scalar(key + '.xs', nonzero=True)
     seed = o.pick(key + '.xseed', st.integers(0, 9999))
@@ -2538,3 +2543,165 @@ def _proj(o):
     sd = anyspace(o, 'space', kinds=('rn', 'discr'), pspace=False)
     o.dom = 'mod'
     return lambda: PO.proximal_convex_conj_linfty(B(sd))(1.0)
+
+
+# --- solver building blocks applied in place (C10 only) -------------------
+
+SAFE_LEAVES = ['scale', 'ident', 'mult', 'const', 'zero', 'vecsum']
+
+
+class ElemDivide(Operator):
+    """``data.divide(x, out=out)`` as OS-MLEM applies it to its temporary
+    (harness-side wrapper around the element method)."""
+
+    def __init__(self, data):
+        super(ElemDivide, self).__init__(data.space, data.space)
+        self.data = data
+
+    def _call(self, x, out):
+        self.data.divide(x, out=out)
+
+
+class ElemMaximum(Operator):
+    """``x.ufuncs.maximum(eps, out=out)`` (OS-MLEM)."""
+
+    def __init__(self, spc, eps):
+        super(ElemMaximum, self).__init__(spc, spc)
+        self.eps = eps
+
+    def _call(self, x, out):
+        x.ufuncs.maximum(self.eps, out=out)
+
+
+class ElemLincomb(Operator):
+    """``out.lincomb(a, x, b, y)`` with the iterate as output (prox-DCA)."""
+
+    def __init__(self, a, b, y):
+        super(ElemLincomb, self).__init__(y.space, y.space)
+        self.a, self.b, self.y = a, b, y
+
+    def _call(self, x, out):
+        out.lincomb(self.a, x, self.b, self.y)
+
+
+@entry('elem.divide', 'solverblock', classes=['ElemDivide'], c03=False,
+       c10=True)
+def _elem_divide(o):
+    sd = space(o, 'space', kinds=('rn', 'discr'))
+    seed = o.seed()
+    o.dom = 'nz'
+    return lambda: ElemDivide(vec(B(sd), seed))
+
+
+@entry('elem.maximum', 'solverblock', classes=['ElemMaximum'], c03=False,
+       c10=True)
+def _elem_maximum(o):
+    sd = space(o, 'space', kinds=('rn', 'discr'))
+    eps = o.pick('eps', [1e-8, 0.5, 0.0])
+    o.dom = 'mod'
+    return lambda: ElemMaximum(B(sd), eps)
+
+
+@entry('elem.lincomb', 'solverblock', classes=['ElemLincomb'], c03=False,
+       c10=True)
+def _elem_lincomb(o):
+    sd = anyspace(o, 'space', kinds=('rn', 'discr'))
+    a = o.scalar('a')
+    b = o.scalar('b')
+    seed = o.seed()
+    o.dom = 'mod'
+    return lambda: ElemLincomb(a, b, vec(B(sd), seed))
+
+
+@entry('alias.LinCombOperator', 'solverblock', classes=['LinCombOperator'],
+       c03=False, c10=True)
+def _alias_lincomb(o):
+    sd = anyspace(o, 'space', kinds=('rn', 'discr', 'cn'))
+    a = o.scalar('a')
+    b = o.scalar('b')
+    o.opts['alias_part'] = o.pick('part', (0, 1))
+    o.dom = 'mod'
+    return lambda: odl.LinCombOperator(B(sd), a, b)
+
+
+@entry('alias.expr', 'solverblock', c03=False, c10=True, weight=4,
+       classes=['OperatorSum', 'OperatorComp', 'OperatorLeftScalarMult',
+                'OperatorRightScalarMult', 'OperatorLeftVectorMult',
+                'OperatorRightVectorMult', 'OperatorVectorSum',
+                'OperatorPointwiseProduct'])
+def _alias_expr(o):
+    """Expression classes over alias-safe leaves (scaling, multiplication,
+    constants, translations, proximals)."""
+    sd = anyspace(o, 'space', kinds=('rn', 'discr'))
+    depth = o.pick('depth', (1, 1, 2))
+    e = expr(o, 't', depth, leaves=SAFE_LEAVES + ['prox'])
+    o.opts['variant'] = o.opts.get('t.x')
+    o.dom = 'mod'
+    return lambda: e(B(sd))
+
+
+# --------------------------------------------------------------------------
+# aliased call sites of the shipped solvers (AST scan, C10)
+
+def aliased_call_sites():
+    """Calls in ``odl/solvers`` whose ``out=`` argument is (a) the first
+    positional argument itself, (b) the object whose ``lincomb`` result is
+    the first argument (``P(x.lincomb(...), out=x)``), or (c) the object the
+    called method belongs to (``x.ufuncs.maximum(eps, out=x)``)."""
+    root = os.path.join(odl_root(), 'odl', 'solvers')
+    sites = []
+    for dirpath, _, files in sorted(os.walk(root)):
+        for fn in sorted(files):
+            if not fn.endswith('.py'):
+                continue
+            path = os.path.join(dirpath, fn)
+            with open(path) as f:
+                try:
+                    tree = ast.parse(f.read())
+                except SyntaxError:
+                    continue
+            for node in ast.walk(tree):
+                if not isinstance(node, ast.Call):
+                    continue
+                outs = [k.value for k in node.keywords if k.arg == 'out']
+                if not outs:
+                    continue
+                out = ast.unparse(outs[0])
+                mode = None
+                if node.args and ast.unparse(node.args[0]) == out:
+                    mode = 'direct'
+                elif node.args and isinstance(node.args[0], ast.Call) and \
+                        isinstance(node.args[0].func, ast.Attribute) and \
+                        node.args[0].func.attr == 'lincomb' and \
+                        ast.unparse(node.args[0].func.value) == out:
+                    mode = 'lincomb'
+                else:
+                    base = node.func
+                    while isinstance(base, ast.Attribute):
+                        base = base.value
+                        if ast.unparse(base) == out:
+                            mode = 'self'
+                            break
+                if mode is None:
+                    continue
+                callee = ast.unparse(node.func)
+                if 'prox' in callee:
+                    cat = 'proximal'
+                elif callee.endswith('.divide') or callee.endswith(
+                        '.multiply'):
+                    cat = 'elem.divide'
+                elif '.ufuncs.' in callee:
+                    cat = 'elem.ufunc'
+                elif callee.endswith('.lincomb'):
+                    cat = 'elem.lincomb'
+                else:
+                    cat = 'other'
+                sites.append((os.path.relpath(path, odl_root()),
+                              node.lineno, callee, mode, cat))
+    return sites
+
+
+SITE_FAMILIES = {'proximal': ('prox', 'funcprox'),
+                 'elem.divide': ('solverblock',),
+                 'elem.ufunc': ('solverblock',),
+                 'elem.lincomb': ('solverblock',)}
